@@ -783,7 +783,7 @@ def post_c18_suffix(case, st):
 # ---------------------------------------------------------------------------------------------
 # reuse: the same text on a parser that was just left "dirty" by a refused parse
 
-DIRTY = [b'require ["copy", "x" ;', b'if anyof (true, header ["a" {', b'if true { foo; }', b'\n\n\nfoo;', b'keep', b'if header :is "a"',
+DIRTY = [b'keep;\nkeep;\n\n  stop;\nkeep;\nfoo;\n', b'require ["copy", "x" ;', b'if anyof (true, header ["a" {', b'if true { foo; }', b'\n\n\nfoo;', b'keep', b'if header :is "a"',
          b'require ["relational","regex","imap4flags","fileinto"]; if true { keep; ']
 _dirty_parser = [None, 0]
 
@@ -804,7 +804,7 @@ def post_reuse(case, st):
     o1 = case.obs
     if (o2.verdict, o2.error, o2.error_pos, o2.tree) != (o1.verdict, o1.error, o1.error_pos, o1.tree):
         what = "verdict" if o2.verdict != o1.verdict else ("tree" if o2.tree != o1.tree else "error-position")
-        prop = "C03" if what == "tree" else "C02"
+        prop = "C03" if what == "tree" else ("C18" if what == "error-position" else "C02")
         last = None
         for t in case.toks:
             if t.kind == "id":
